@@ -233,7 +233,7 @@ def limits_read_set(u):
 # C09: observer code writes only observer state
 
 
-@unit("C09.observer_frame", ["C09"], ["pygradflow.solver.Solver.solve", "pygradflow.display.StateData.__getitem__", "pygradflow.callbacks.Callbacks.__call__"])
+@unit("C09.observer_frame", ["C09", "C07", "C06"], ["pygradflow.solver.Solver.solve", "pygradflow.display.StateData.__getitem__", "pygradflow.callbacks.Callbacks.__call__"])
 def observer_frame(u):
     solve = u.func("pygradflow.solver.Solver.solve")
     loop = next(n for n in ast.walk(solve.node) if isinstance(n, ast.While))
@@ -269,7 +269,7 @@ def observer_frame(u):
     gi = u.func("pygradflow.display.StateData.__getitem__")
     tries = [n for n in ast.walk(gi.node) if isinstance(n, ast.Try)]
     ok = len(tries) == 1 and any(h.type is None or ast.unparse(h.type) == "Exception" for h in tries[0].handlers) and all(isinstance(s, (ast.Try, ast.Expr)) for s in gi.node.body)
-    u.ensure(ok, "StateData.__getitem__swallows_every_Exception")
+    u.ensure(ok, "StateData.__getitem__swallows_every_Exception", desc="a failing lazy display entry (e.g. EvalError at a rejected trial point) must not escape solve()")
     # (c) the collected path is append-only and read only when the result is built
     for nm in ("path", "path_times"):
         for n in ast.walk(loop):
